@@ -821,6 +821,17 @@ get_store_opcode_for_size (int size)
   return NULL;
 }
 
+/* The load/store expansion can need more room than the ORC_N_INSNS slots */
+static int
+orc_compiler_has_insn_space (OrcCompiler *compiler)
+{
+  if (compiler->n_insns >= ORC_N_INSNS) {
+    ORC_COMPILER_ERROR (compiler, "too many instructions after load/store expansion");
+    return FALSE;
+  }
+  return TRUE;
+}
+
 static void
 orc_compiler_rewrite_insns (OrcCompiler *compiler)
 {
@@ -852,6 +863,7 @@ orc_compiler_rewrite_insns (OrcCompiler *compiler)
             var->vartype == ORC_VAR_TYPE_DEST) {
           OrcInstruction *cinsn;
 
+          if (!orc_compiler_has_insn_space (compiler)) return;
           cinsn = compiler->insns + compiler->n_insns;
           compiler->n_insns++;
 
@@ -889,6 +901,7 @@ orc_compiler_rewrite_insns (OrcCompiler *compiler)
             insn.src_args[i] = loaded;
             continue;
           }
+          if (!orc_compiler_has_insn_space (compiler)) return;
           cinsn = compiler->insns + compiler->n_insns;
           compiler->n_insns++;
 
@@ -909,6 +922,7 @@ orc_compiler_rewrite_insns (OrcCompiler *compiler)
       }
     }
 
+    if (!orc_compiler_has_insn_space (compiler)) return;
     xinsn = compiler->insns + compiler->n_insns;
     memcpy (xinsn, &insn, sizeof(OrcInstruction));
     compiler->n_insns++;
@@ -923,6 +937,7 @@ orc_compiler_rewrite_insns (OrcCompiler *compiler)
         if (var->vartype == ORC_VAR_TYPE_DEST) {
           OrcInstruction *cinsn;
 
+          if (!orc_compiler_has_insn_space (compiler)) return;
           cinsn = compiler->insns + compiler->n_insns;
           compiler->n_insns++;
 
@@ -1262,6 +1277,11 @@ orc_compiler_dup_temporary (OrcCompiler *compiler, int var, int j)
 {
   int i = ORC_VAR_T1 + compiler->n_temp_vars + compiler->n_dup_vars;
 
+  if (i >= ORC_N_COMPILER_VARIABLES) {
+    ORC_COMPILER_ERROR (compiler, "too many temporary variables");
+    return var;
+  }
+
   compiler->vars[i].vartype = ORC_VAR_TYPE_TEMP;
   compiler->vars[i].size = compiler->vars[var].size;
   compiler->vars[i].name = orc_malloc (strlen(compiler->vars[var].name) + 10);
@@ -1275,6 +1295,13 @@ static int
 orc_compiler_new_temporary (OrcCompiler *compiler, int size)
 {
   int i = ORC_VAR_T1 + compiler->n_temp_vars + compiler->n_dup_vars;
+
+  if (i >= ORC_N_COMPILER_VARIABLES) {
+    /* callers check compiler->error once the pass is over; hand back a
+     * valid slot so nothing is written out of bounds until then */
+    ORC_COMPILER_ERROR (compiler, "too many temporary variables");
+    return ORC_VAR_T1;
+  }
 
   compiler->vars[i].vartype = ORC_VAR_TYPE_TEMP;
   compiler->vars[i].size = size;
